@@ -89,6 +89,7 @@ type c14Env struct {
 	inlining                map[*FuncInfo]bool
 	unsignedMax             bool
 	permTerms               map[string]bool // terms of the index permutations of Children (c14y.go)
+	wcSym                   *c14SymEval     // symbolic evaluation of WriteCell (c14z.go)
 }
 
 func runC14(c *Ctx) {
@@ -110,6 +111,8 @@ func runC14(c *Ctx) {
 	c.expect("C14.d", 12)
 	c.Clauses = append(c.Clauses, "C14.e no index into Surface.Buffer (any function of the vxfw packages) is computed by a non-constant +, * or << in a type that wraps at 16 bits, directly or through the definitions and op-assignments of the locals it is built from")
 	c.expect("C14.e", 2)
+	c.Clauses = append(c.Clauses, "C14.f exact addressing, store by store: the index of EVERY element store into Surface.Buffer made by WriteCell, evaluated symbolically over the control-flow graph (polynomial over col,row,Size.* plus a constant offset interval; locals followed through assignments, op-assignments, loops, `return expr` helpers), is exactly <row parameter>*Width + <col parameter>; a store at any other determinate index (i+1, a loop variable that starts at i+1 or runs on from i, len(Buffer)-1 …) changes a cell other than the addressed one whatever bound guards it: violated")
+	c.expect("C14.f", 1)
 
 	env := &c14Env{c: c, sizeFns: map[*FuncInfo]bool{}, surfFnsDone: map[*FuncInfo]bool{}, seenKey: map[string]bool{}, inlining: map[*FuncInfo]bool{}}
 	if !env.setup() {
@@ -117,6 +120,7 @@ func runC14(c *Ctx) {
 	}
 	env.checkNewSurface()
 	env.checkWriteCell()
+	env.checkExactStores()
 	env.checkOwnership()
 	env.checkPlumbing()
 	env.checkWidgets()
@@ -2397,9 +2401,59 @@ func (e *c14Env) checkWriteCell() {
 				c.undecided("C14.b", fn+"/index = row*Width+col", as.Pos(), "store is not recv.Buffer[i]")
 				continue
 			}
+			// guards: the store of the cell addressed by (params[ci], params[ri]) needs col < Width and row < Height
+			guards := func(ri, ci int) {
+				facts := e.c14GuardFacts(g, sc, h.Loc)
+				colT, rowT := Term{ID: c14ID(params[ci], ""), Disp: params[ci].Name()}, Term{ID: c14ID(params[ri], ""), Disp: params[ri].Name()}
+				wT, hT := Term{ID: wID, Disp: recv.Name() + ".Size.Width"}, Term{ID: hID, Disp: recv.Name() + ".Size.Height"}
+				type need struct {
+					what string
+					ok   bool
+				}
+				needs := []need{
+					{"col < Width", impliesLin(facts, colT, wT, -1)},
+					{"row < Height", impliesLin(facts, rowT, hT, -1)},
+				}
+				if !c14IsUnsigned(params[ci].Type()) {
+					needs = append(needs, need{"col >= 0", impliesLin(facts, Term{}, colT, 0)})
+				}
+				if !c14IsUnsigned(params[ri].Type()) {
+					needs = append(needs, need{"row >= 0", impliesLin(facts, Term{}, rowT, 0)})
+				}
+				for _, nd := range needs {
+					key := fn + "/store guarded by " + nd.what
+					if nd.ok {
+						c.ok("C14.b", key, as.Pos(), "dominating facts: %s", atomsString(facts))
+					} else {
+						c.bad("C14.b", key, as.Pos(), "the store %s is reachable without %s (facts in force: %s): a write outside the surface is not ignored (it panics or lands in another cell)", types.ExprString(l), nd.what, atomsString(facts))
+					}
+				}
+				mod := 0
+				for _, o := range []types.Object{recv, params[ci], params[ri]} {
+					if defs, dirty := c14Defs(info, fi.Decl.Body, o); dirty || len(defs) > 0 {
+						mod++
+					}
+				}
+				c.check(mod == 0, "C14.b", fn+"/coordinates and receiver not reassigned", fi.Decl.Pos(), "col,row and the receiver are never assigned", "col/row or the receiver is modified inside WriteCell")
+			}
+			// notShape: the index expression does not have the one-expression shape a*Width+b. Its VALUE decides
+			// (c14z.go): the addressed index built in another way (i := row*w; i += col) is judged like the plain
+			// form (wrap-around of the pieces: C14.e); a determinate other index is C14.f's violation and not this
+			// store's business; only an index whose value is unknown stays undecided.
+			notShape := func(why string) {
+				vd := e.wcEval(fi, sc, g).verdict(h.Loc, ch.idx[0], wID, params)
+				switch vd.kind {
+				case "addr":
+					c.ok("C14.b", fn+"/index = row*Width+col", as.Pos(), "index = %s (value of %s)", vd.desc, types.ExprString(ch.idx[0]))
+					guards(vd.ri, vd.ci)
+				case "other":
+				default:
+					c.undecided("C14.b", fn+"/index = row*Width+col", as.Pos(), "index %s %s", types.ExprString(ch.idx[0]), why)
+				}
+			}
 			op, ax, ay, ta, ok := sc.v(ch.idx[0]).bin()
 			if !ok || op != token.ADD {
-				c.undecided("C14.b", fn+"/index = row*Width+col", as.Pos(), "index %s is not a sum", types.ExprString(ch.idx[0]))
+				notShape("is not a sum")
 				continue
 			}
 			var mx, my, addend c14V
@@ -2411,7 +2465,7 @@ func (e *c14Env) checkWriteCell() {
 				mx, my, tm, addend, found = x, y, t, ax, true
 			}
 			if !found {
-				c.undecided("C14.b", fn+"/index = row*Width+col", as.Pos(), "index %s has no product term", types.ExprString(ch.idx[0]))
+				notShape("has no product term")
 				continue
 			}
 			var rowV *c14V
@@ -2432,38 +2486,7 @@ func (e *c14Env) checkWriteCell() {
 			c.ok("C14.b", fn+"/index = row*Width+col", as.Pos(), "index = %s*Width + %s", params[ri].Name(), params[ci].Name())
 			c.check(c14Wide(tm) && c14Wide(ta), "C14.b", fn+"/index computed without wrap", ch.idx[0].Pos(),
 				fmt.Sprintf("index computed in %v", ta), fmt.Sprintf("the index %s is computed in %v/%v and wraps on surfaces with more than 65 535 cells: the cell lands in a different place", types.ExprString(sc.v(ch.idx[0]).canon().x), tm, ta))
-			facts := e.c14GuardFacts(g, sc, h.Loc)
-			colT, rowT := Term{ID: c14ID(params[ci], ""), Disp: params[ci].Name()}, Term{ID: c14ID(params[ri], ""), Disp: params[ri].Name()}
-			wT, hT := Term{ID: wID, Disp: recv.Name() + ".Size.Width"}, Term{ID: hID, Disp: recv.Name() + ".Size.Height"}
-			type need struct {
-				what string
-				ok   bool
-			}
-			needs := []need{
-				{"col < Width", impliesLin(facts, colT, wT, -1)},
-				{"row < Height", impliesLin(facts, rowT, hT, -1)},
-			}
-			if !c14IsUnsigned(params[ci].Type()) {
-				needs = append(needs, need{"col >= 0", impliesLin(facts, Term{}, colT, 0)})
-			}
-			if !c14IsUnsigned(params[ri].Type()) {
-				needs = append(needs, need{"row >= 0", impliesLin(facts, Term{}, rowT, 0)})
-			}
-			for _, nd := range needs {
-				key := fn + "/store guarded by " + nd.what
-				if nd.ok {
-					c.ok("C14.b", key, as.Pos(), "dominating facts: %s", atomsString(facts))
-				} else {
-					c.bad("C14.b", key, as.Pos(), "the store %s is reachable without %s (facts in force: %s): a write outside the surface is not ignored (it panics or lands in another cell)", types.ExprString(l), nd.what, atomsString(facts))
-				}
-			}
-			mod := 0
-			for _, o := range []types.Object{recv, params[ci], params[ri]} {
-				if defs, dirty := c14Defs(info, fi.Decl.Body, o); dirty || len(defs) > 0 {
-					mod++
-				}
-			}
-			c.check(mod == 0, "C14.b", fn+"/coordinates and receiver not reassigned", fi.Decl.Pos(), "col,row and the receiver are never assigned", "col/row or the receiver is modified inside WriteCell")
+			guards(ri, ci)
 		}
 	}
 }
@@ -2472,6 +2495,7 @@ func (e *c14Env) checkWriteCell() {
 
 func (e *c14Env) checkOwnership() {
 	c := e.c
+	orphans := c14OrphanHelpers(c)
 	for _, p := range c.P.All {
 		info := p.TypesInfo
 		par := c.P.Parents(p)
@@ -2485,6 +2509,11 @@ func (e *c14Env) checkOwnership() {
 		}
 		for _, file := range p.Syntax {
 			ast.Inspect(file, func(n ast.Node) bool {
+				if fd, ok := n.(*ast.FuncDecl); ok && orphans[fd] {
+					// a new unexported helper whose every call was inlined by the pre-pass: it cannot run, and
+					// what it did is judged where it was inlined
+					return false
+				}
 				switch t := n.(type) {
 				case *ast.AssignStmt:
 					for _, l := range t.Lhs {
